@@ -17,7 +17,7 @@ func checkC18(c *Ctx, r *Report) {
 }
 
 func c18R1(c *Ctx, r *Report) {
-	r.Rule("C18-R1", "E2 pathrules + E5 failedge", "ResyncManagerDCP.Run returns success after a completed feed only on the success edge of invalidatePrincipals; invalidatePrincipals must pass through the principal update whenever documents changed / sequences are regenerated; invalidateAllPrincipals visits all users and all roles", 6)
+	r.Rule("C18-R1", "E2 pathrules + E5 failedge", "ResyncManagerDCP.Run returns success after a completed feed only on the success edge of invalidatePrincipals; invalidatePrincipals must pass through invalidateAllPrincipals whenever documents changed (also when sequences are regenerated); invalidateAllPrincipals visits all users and all roles", 6)
 	run := c.Func("(*db.ResyncManagerDCP).Run")
 	inv := c.Func("(*db.ResyncManagerDCP).invalidatePrincipals")
 	all := c.Func("(*db.DatabaseContext).invalidateAllPrincipals")
@@ -70,11 +70,11 @@ func c18R1(c *Ctx, r *Report) {
 	}
 	invAll := c.Calls(inv, false, nameIs("(*db.DatabaseContext).invalidateAllPrincipals"))
 	upd := c.Calls(inv, false, nameIs("(*db.DatabaseContext).updateAllPrincipalsSequences"))
+	// Re-sequencing the principal documents (regenerate_sequences) rewrites them as loaded and does NOT recompute their channels
+	// and roles, so it does not stand in for the invalidation: only invalidateAllPrincipals discharges this obligation.
+	_ = upd
 	var must []ssa.Instruction
 	for _, x := range invAll {
-		must = append(must, x)
-	}
-	for _, x := range upd {
 		must = append(must, x)
 	}
 	okPass := len(changedEdges) > 0 && len(invAll) > 0
@@ -94,8 +94,8 @@ func c18R1(c *Ctx, r *Report) {
 		unchangedEdges = append(unchangedEdges, Edge{e.From, 1})
 	}
 	leak := ReachFrom(inv.Blocks[0], 0, isNilRet, NewAvoid().AddInstr(must...).AddEdge(unchangedEdges...))
-	r.Check("C18-R1", "fn=(*db.ResyncManagerDCP).invalidatePrincipals success requires=principal-update|no-docs-changed", c.Pos(inv.Pos()), okPass && leak == nil,
-		"every success path updates principals or passes the DocsChanged()==0 edge", "invalidatePrincipals can return success without invalidating / re-sequencing principals although documents changed")
+	r.Check("C18-R1", "fn=(*db.ResyncManagerDCP).invalidatePrincipals success requires=invalidateAllPrincipals|no-docs-changed", c.Pos(inv.Pos()), okPass && leak == nil,
+		"every success path invalidates all principals or passes the DocsChanged()==0 edge", "invalidatePrincipals can return success without invalidating the principals' computed channels and roles although documents changed (re-sequencing the principal documents does not recompute them): users keep the access computed under the old sync function")
 	fe := newFailEdge(c)
 	for _, fn := range []*ssa.Function{inv, all, c.Func("(*db.DatabaseContext).updateAllPrincipalsSequences")} {
 		if fn == nil {
